@@ -70,19 +70,21 @@ type ipAction struct {
 }
 
 type interposer struct {
-	sys        *ipSystem
-	next       http.RoundTripper
-	clock      int64
-	mu         sync.Mutex
-	events     []*rpcEvent
-	counts     map[string]int
-	actions    []ipAction
-	fired      int64
-	held       int64 // replies delivered after their machine was killed and seen stopped
-	killed     []string
-	inflight   int64
-	lastMethod string
-	lastAct    int64 // unix nanos of the last RPC start/end other than keepalive and stats polling
+	sys          *ipSystem
+	next         http.RoundTripper
+	clock        int64
+	mu           sync.Mutex
+	events       []*rpcEvent
+	counts       map[string]int
+	actions      []ipAction
+	fired        int64
+	held         int64 // replies delivered after their machine was killed and seen stopped
+	midbody      int64 // replies cut in the middle of their body with their machine killed
+	midbodyBytes int64
+	killed       []string
+	inflight     int64
+	lastMethod   string
+	lastAct      int64 // unix nanos of the last RPC start/end other than keepalive and stats polling
 }
 
 func (ip *interposer) touch(method string) {
@@ -137,6 +139,28 @@ func (ip *interposer) RoundTrip(req *http.Request) (*http.Response, error) {
 	}
 	resp, err := ip.next.RoundTrip(req)
 	for _, a := range acts {
+		if a.When == "after" && a.What == "kill-target-midbody" {
+			// The machine dies in the middle of a streamed reply (a shuffle or scan read): the
+			// caller receives the first half of the body and then a broken connection.
+			if err == nil && resp != nil && resp.Body != nil {
+				body, rerr := io.ReadAll(resp.Body)
+				resp.Body.Close()
+				if rerr == nil {
+					if m := ip.machineOfRequest(req); m != nil {
+						atomic.AddInt64(&ip.fired, 1)
+						ip.kill(m, m.Addr)
+						atomic.AddInt64(&ip.midbody, 1)
+						ip.mu.Lock()
+						ip.midbodyBytes += int64(len(body))
+						ip.mu.Unlock()
+					}
+					resp.Body = io.NopCloser(io.MultiReader(bytes.NewReader(body[:len(body)/2]), errReader{io.ErrUnexpectedEOF}))
+				} else {
+					resp.Body = io.NopCloser(io.MultiReader(bytes.NewReader(body), errReader{rerr}))
+				}
+			}
+			continue
+		}
 		if a.When == "after" && a.What == "kill-target-hold" {
 			// The reply is in flight when its machine dies: take the complete reply off the wire,
 			// kill the machine, let the driver notice the loss, and only then deliver the reply.
